@@ -84,7 +84,8 @@ def run(tier, seed, rng):
         for i in range(0, len(sample), 10):
             chunk = sample[i:i + 10]
             # the renamed identifier is what a case-insensitive variant compares against, too
-            e = ESpec(id='c07_%d' % k, name='EnC07x%d' % k, style=st, derives=derives, feats=['parse', 'names', 'vnames', 'roundtrip'], ci=(k % 3 == 1))
+            e = ESpec(id='c07_%d' % k, name='EnC07x%d' % k, style=st, derives=derives, feats=['parse', 'names', 'vnames', 'roundtrip'], ci=(k % 3 == 1),
+                      prefix=[None, None, 'px/', None, 'É'][k % 5])
             seen = set()
             for j, s in enumerate(chunk):
                 if s in seen:
